@@ -49,7 +49,8 @@ def _raises(v):
 
 SCHEMA = {'none': None, 'int': int, 'dbl': lambda v: v * 2, 'raises': _raises,
           # rejects with KeyError (or TypeError for an unhashable value), not ValueError
-          'lookup': {1: 'one', 2: 'two', 'x': 'ex'}.__getitem__,
+          # (... and maps one accepted value to None, a legitimate result)
+          'lookup': {1: 'one', 2: None, 'x': 'ex'}.__getitem__,
           # thorough only:
           'inv': lambda v: 12 / v,      # ZeroDivisionError / TypeError
           'str': str, 'tonone': lambda v: None, 'neg': lambda v: -v, 'len': len,
@@ -107,6 +108,21 @@ def first_accepted(cfg):
     return None
 
 
+def expired_value(cfg):
+    """(value, its validated form) used as InputExp's 'expired': the LAST acceptable value of D."""
+    for v in reversed(D):
+        try:
+            ok, out = accept(cfg['a'], cfg['c'], cfg['s'], v)
+        except Exception:   # pylint: disable=broad-except
+            continue
+        if ok:
+            return v, out
+    return None
+
+
+EXPIRE = 'expire'       # extra symbol of the InputExp alphabet: let the value expire
+
+
 def same(x, y):
     return x == y
 
@@ -120,7 +136,8 @@ def run_history(cfg, hist, init):
             if cfg['kind'] == 'Input':
                 blk = edzed.Input('inp', initdef=init[0], **vkw(cfg))
             else:
-                blk = edzed.InputExp('inp', duration=10, expired=init[0], initdef=init[0], **vkw(cfg))
+                blk = edzed.InputExp('inp', duration=10, expired=copy.copy(expired_value(cfg)[0]),
+                                     initdef=init[0], **vkw(cfg))
         except Exception as err:    # pylint: disable=broad-except
             info['viol'].append(('ctor-refused-valid-initdef',
                                  f"initdef {init[0]!r} is acceptable for [{a},{c},{s}] but the "
@@ -134,6 +151,15 @@ def run_history(cfg, hist, init):
             if not same(blk.output, cur):
                 info['viol'].append(('initial-output', f"{blk.output!r} != schema(initdef) {cur!r}"))
             for vi in hist:
+                if vi == EXPIRE:
+                    await sim.loop.sleep_until_us(sim.loop.now_us + 11_000_000)
+                    cur = expired_value(cfg)[1]
+                    info['steps'].append((EXPIRE, None, repr(blk.output)))
+                    if not same(blk.output, cur):       # (an equal value is "no change" for set_output)
+                        info['viol'].append(('wrong-output',
+                                             f"after the expiration [{a},{c},{s}]: output {blk.output!r}, "
+                                             f"expected the validated 'expired' value {cur!r}"))
+                    continue
                 v = copy.copy(D[vi])
                 ok, out = accept(a, c, s, v)
                 before = copy.deepcopy(blk.get_state())
@@ -192,9 +218,11 @@ def run_config(cfg):
         def on_step(hist, hc, sym, canon, info):
             for sig, msg in info['viol']:
                 acc.violation(f"C17:{sig}:{cfg['kind']}", msg, cfg=cfg,
-                              detail={'history': [repr(D[i]) for i in hist], 'steps': info['steps']})
+                              detail={'history': [repr(D[i]) if i != EXPIRE else i for i in hist],
+                                      'steps': info['steps']})
             acc.outcome((cfg['kind'], a, c, s, hc, sym, info['steps'][-1:]))
-        res = bfs(lambda h: run_history(cfg, h, init), range(len(D)), acc, max_depth=4,
+        alpha = list(range(len(D))) + ([EXPIRE] if cfg['kind'] == 'InputExp' else [])
+        res = bfs(lambda h: run_history(cfg, h, init), alpha, acc, max_depth=6,
                   on_step=on_step)
         acc.count('graphs_closed' if res['closed'] else 'graphs_open')
         if not res['closed'] and not acc.violations:
